@@ -127,9 +127,9 @@ func (c *Case) MustNotPanic(what string, fn func()) {
 // FailPanic reports a recovered panic as a violation.
 func (c *Case) FailPanic(what string, pi *PanicInfo) {
 	if _, ok := pi.Value.(simhook.StepBudgetExceeded); ok {
-		c.Fail("no-termination", what+"/"+pi.Location, "%s: %v", what, pi.Value)
+		c.Fail("no-termination", pi.Location, "%s: %v", what, pi.Value)
 	}
-	c.Fail("panic", what+"/"+pi.Location+"/"+pi.Class, "%s panicked: %v\n%s", what, pi.Value, shorten(pi.Stack))
+	c.Fail("panic", pi.Location+"/"+pi.Class, "%s panicked: %v\n%s", what, pi.Value, shorten(pi.Stack))
 }
 
 func shorten(s string) string {
